@@ -120,6 +120,37 @@ CLAIMS["C19"] = dict(
         "update_position and read by nobody; validated by option pairs); -M/-D/-l are side effects outside the model, validated by running the reader.",
    technique="Lean 4 proof (one-step simulation between the two update paths) + differential runs of the real reader under option pairs", ref="5.19")
 
+CLAIMS["C01"] = dict(
+   text="Partial proof + exhaustive panic search. Lean 4 theorems (Props/C01.lean): the model's line step, segment fold and line splitter are total; "
+        "the checked twins of the bit-extraction layer equal the unchecked model whenever the positions lie inside the vector (and trap outside); "
+        "every read of the message vector in the source - regenerated into Generated/Sites.lean on every run - lies inside 112 bits, and inside 56 "
+        "bits in every function reachable with a short frame, which with C02's length/DF gate excludes index panics; the only loop is the TCP retry "
+        "loop; a hostile line is a no-op and the lines after it are processed. Arithmetic, cast and unwrap sites are inventoried from the source and "
+        "compared with a reviewed list, not proved trap-free one by one: instead the real reader thread (overflow checks on, catch_unwind) and the "
+        "built CLI run over exhaustive field sweeps, hostile lines and option sets; any panic or non-zero exit is a violation with the input as replay.",
+   note="trusted: Lean kernel and standard axioms; the sites extractor; the classification of functions into short-path / long-only (by reading the call "
+        "graph); harness and CLI build. Not covered: allocation failure, stack exhaustion, i32 counter overflow after 2^31 frames.",
+   technique="Lean 4 proof (checked twin, decide over source-extracted access sites) + exhaustive/fuzz panic search on the real code with overflow checks", ref="5.1")
+CLAIMS["C14"] = dict(
+   text="Lean 4 theorems (Props/C14.lean) over the header cells regenerated from header.rs: the header is the fixed columns with each optional group "
+        "inserted exactly when its -i letter is set, in fixed relative order; for all 32 group sets cell i of a row stands under header i with the "
+        "header's width and the column's alignment; every cell but the last is followed by exactly one character; if every value fits its column the "
+        "row, the header and the separator have the same length; unknown values render as blanks. Correspondence and oracle: the text printed by "
+        "the real Planes::print / LegendHeaders against the model and against an independent cell-by-cell rendering of the dumped row state.",
+   note="trusted: Lean kernel and standard axioms; header extractor; harness (stdout capture). The row's cell list is the hand-written model of "
+        "simple_display.rs, tied by correspondence. Modelled, not verified: std::fmt (float cells compared numerically); display width of the "
+        "superscript/subscript source marks is taken as one column.",
+   technique="Lean 4 proof (case analysis over the 32 flag sets on source-extracted header data, length lemmas) + correspondence on real printed output", ref="5.14")
+CLAIMS["C15"] = dict(
+   text="Lean 4 theorems (Props/C15.lean): the printed rows are a permutation of the table (each aircraft exactly once, distinct); every recognised "
+        "key letter compares by a total transitive order, so after the last recognised letter of -o the rows are Pairwise-ordered by that key in the "
+        "letter's direction (stable merge sort, reverse for A/D); unrecognised letters are no-ops; with no recognised letter the rows are in "
+        "ascending address order. Correspondence and oracle: row sequence of the real Planes::print for all -o strings of length <= 2 on tables with "
+        "ties, blanks and keys closer than one unit.",
+   note="trusted: Lean kernel and standard axioms; harness. Modelled, not verified: slice::sort_by / sort_by_cached_key stability (List.mergeSort in the "
+        "model), f64::total_cmp vs the rational order (no NaN or negative zero can occur).",
+   technique="Lean 4 proof (permutation and Pairwise via mergeSort lemmas) + correspondence on real printed output", ref="5.15")
+
 NOT_YET = "check not built yet in this revision; listed so that the manifest stays truthful while the framework grows"
 
 def main():
